@@ -267,10 +267,21 @@ fn version_lists(tier: Tier) -> (u64, u64, Vec<(String, String, Value)>) {
         lists.extend(next.iter().cloned());
         cur = next;
     }
-    let outs: Vec<(bool, Vec<(String, String, Value)>)> = lists
+    // an explicit import statement under a versioned interface name, of a type that merges
+    // with / conflicts with what the instantiated packages require (lists of up to k-1)
+    let mut jobs: Vec<(String, Vec<usize>)> = lists.iter().map(|l| (String::new(), l.clone())).collect();
+    for name in ["a:b/i", "a:b/i@0.2.1", "a:b/i@0.2.5", "a:b/i@1.0.0", "a:b/i@1.1.0", "a:b/i@0.0.1"] {
+        for ty in ["f: func();", "f: func(x: u32);"] {
+            let prefix = format!("import x as \"{name}\": interface {{ {ty} }};\n");
+            for l in lists.iter().filter(|l| l.len() < k) {
+                jobs.push((prefix.clone(), l.clone()));
+            }
+        }
+    }
+    let outs: Vec<(bool, Vec<(String, String, Value)>)> = jobs
         .par_iter()
-        .map(|l| {
-            let mut text = String::from("package t:doc;\n");
+        .map(|(prefix, l)| {
+            let mut text = format!("package t:doc;\n{prefix}");
             for (n, i) in l.iter().enumerate() {
                 text.push_str(&format!("let c{n} = new {} {{ ... }};\n", pk[*i].0));
             }
